@@ -135,6 +135,12 @@ var templates = []template{
 	{"cmp-chain", "$1 < $2 < $3", 3},
 	{"in-chain", "$1 in $2 in $3", 3},
 	{"like-pattern", "$1 like \"[\" + $2", 2},
+	{"doc-index", "q := {}\ndoc(q[$1])", 1},
+	{"doc-index-defined", "q := {\"a\" : f, 1 : len}\ndoc(q[$1])", 1},
+	{"doc-call", "doc(f($1))", 1},
+	{"doc-member", "doc(nosuch.a.b) + doc(math.sqrt) + doc(math.nosuch) + doc(len)", 0},
+	{"doc-math-index", "doc(math[$1])", 1},
+	{"doc-nested", "doc(doc($1))", 1},
 	{"timestamp-loc", "timestamp($1, \"Europe/Nowhere\")", 1},
 	{"dumpenv-after", "x := $1\ndumpenv()", 1},
 }
